@@ -164,7 +164,29 @@ def case_strategy():
     from hypothesis import strategies as st
 
     @st.composite
+    def _nontransitive(draw):
+        """subclassing that is not transitive: K1 is an ABC below K0 that registers K2 as a virtual subclass, K3
+        derives from K2 and K0 - so K2 < K1 < K0 while K2 and K0 are unrelated.  'Beats every other applicable
+        method' then differs from 'is not beaten by any'."""
+        h = {"classes": [{"bases": []}, {"bases": [0], "abc": True, "virt": [2]}, {"bases": []}, {"bases": [2, 0]},
+                         {"bases": [3]}]}
+        two = draw(st.booleans())
+        anns = draw(st.permutations([["cls", "K0"], ["cls", "K1"], ["cls", "K2"]]))
+        extra = draw(st.lists(st.sampled_from([["cls", "object"], ["cls", "K3"], ["cls", "K0"]]), max_size=2))
+        methods = []
+        for i, a in enumerate(list(anns) + extra):
+            pos = [{"name": "a0", "ann": a}] + ([{"name": "a1", "ann": ["cls", draw(st.sampled_from(["object", "K0"]))]}] if two else [])
+            methods.append({"id": i, "pos": pos, "kw": [], "prio": -1 if a == ["cls", "object"] else 0})
+        vals = [["inst", n] for n in ("K3", "K4", "K2", "K1", "K0")]
+        calls = [{"args": [v] + ([["inst", "K3"]] if two else []), "kw": {}}
+                 for v in draw(st.lists(st.sampled_from(vals), min_size=2, max_size=5))]
+        return {"kind": "rand", "hier": h, "methods": methods, "calls": calls,
+                "host": draw(st.sampled_from(["func", "func", "attr"]))}
+
+    @st.composite
     def _case(draw):
+        if draw(st.integers(0, 9)) == 0:
+            return draw(_nontransitive())
         h = draw(H.hierarchies(2, 8))
         names = H.class_names(h) * 3 + ["object", "object", "PA", "PB", "int", "str"]
         cls = st.sampled_from(names)
